@@ -34,6 +34,65 @@ def P.joinStep (p : P) (any : Bool) (pos : Pos) : P × Bool :=
   if pos.line > p.line && !p.o.singleLine then ((if !any then p.incLevel else p).bslashNewl, true)
   else (p, any)
 
+/-! helpers for subshells and blocks: the printer's `nestedStmts` / `stmtList` decisions -/
+
+def Stmts.single : Stmts → Bool
+  | .cons _ .nil => true
+  | _ => false
+def Stmts.singleRparen : Stmts → Bool
+  | .cons s .nil => s.endsWithRparen
+  | _ => false
+def Stmts.headLparen : Stmts → Bool
+  | .cons s _ => s.startsWithLparen
+  | .nil => false
+def Stmts.headLine : Stmts → Nat
+  | .cons s _ => s.pos.line
+  | .nil => 0
+def Stmts.tailLen : Stmts → Nat
+  | .cons _ r => r.length
+  | .nil => 0
+
+/-- `nestedStmts` up to its `stmtList` call -/
+def P.nestPre (p : P) (ss : Stmts) (closing : Pos) : P :=
+  let p := p.incLevel
+  if ss.length > 1 then { p with wantNewline := true }
+  else if closing.line > p.line && ss.length > 0 && ss.endLine < closing.line then { p with wantNewline := true }
+  else p
+
+/-- the local `sep` of `stmtList` -/
+def P.listSep (p : P) (ss : Stmts) : Bool :=
+  p.wantNewline || (match ss with
+    | .nil => false
+    | .cons s _ => s.pos.line > p.line)
+
+/-- `case *Block:` up to the `nestedStmts` call -/
+def P.blkOpen (p : P) (lb : Pos) : P :=
+  let p := (p.advanceLine lb.line).spacePad
+  let p := p.tok [123]
+  let p := { p with wroteSemi := true, wantSpace := .required }
+  { p with wantNewline := p.wantNewline || p.o.funcNextLine }
+
+/-- `semiRsrv` up to writing the reserved word -/
+def P.semiPre (p : P) (posLine : Nat) : P :=
+  if p.wantsNewline posLine false then p.newlines posLine
+  else
+    let p := if !p.wroteSemi then p.tok [59] else p
+    if !p.o.minify then p.spacePad else p
+
+/-- `case *Subshell:` up to `rightParen` -/
+def P.subClose (p : P) (lp rp : Pos) (ss : Stmts) : P :=
+  ((((p.advanceLine lp.line).spacePad).subshellOpen lp ss).nestedStmtsWith ss rp
+    (fun q => q.stmtListLoop true ss)).closingParenSpace ss lp.line rp.line
+
+/-- `rightParen` up to writing `)` -/
+def P.rparenPre (p : P) (posLine : Nat) : P := if p.o.minify then p else p.newlines posLine
+
+/-- `case *Block:` up to `semiRsrv` -/
+def P.blkBody (p : P) (lb rb : Pos) (ss : Stmts) : P :=
+  if ((p.blkOpen lb).nestedStmtsWith ss rb (fun q => q.stmtListLoop true ss)).o.minify && ss.length == 0
+  then ((p.blkOpen lb).nestedStmtsWith ss rb (fun q => q.stmtListLoop true ss)).space
+  else (p.blkOpen lb).nestedStmtsWith ss rb (fun q => q.stmtListLoop true ss)
+
 def trWordB (p : P) (w w' : Word) : Bool :=
   !w.parts.isEmpty && (wordBytes w'.parts == wordBytes w.parts) &&
   (match w'.parts with
@@ -94,6 +153,56 @@ def trLoopB (p : P) (first : Bool) : Stmts → Stmts → Bool
     trLoopB { ((p.stmtSep first s.pos.line).stmt s) with wantNewline := true } false rest rest'
   | _, _ => false
 
+/-! ## The side condition for subshells and blocks
+
+  Around `( )` and `{ }` the printer compares positions of the tree with each other (is the first
+  statement on the line of `(`, is the closing token below the end of the list, are `(` and `)` on
+  one line).  `nestOKFile o f` runs the printer and checks, at every subshell and block, that these
+  comparisons come out the same way on the lines where the tokens are actually written. -/
+
+def nestB (line : Nat) (ss : Stmts) (closing : Pos) : Bool :=
+  decide (closing.line > line) && decide (ss.length > 0) && decide (ss.endLine < closing.line)
+
+/-- the agreement of the `nestedStmts` / `stmtList` decisions at one nested list; `p1` is the state
+    after the opening token, `rline` the line on which the closing token is written -/
+def nestAgree (p1 : P) (ss : Stmts) (closing : Pos) (rline : Nat) : Bool :=
+  (!decide (ss.length ≤ 1) ||
+    ((decide (rline > p1.cur) && decide (ss.length > 0) &&
+      decide (((p1.nestPre ss closing).stmtListLoop true ss).cur < rline)) == nestB p1.line ss closing)) &&
+  (!ss.single ||
+    (((p1.nestPre ss closing).wantNewline ||
+      decide (((p1.nestPre ss closing).stmtSep true ss.headLine).cur > (p1.nestPre ss closing).cur)) ==
+        (p1.nestPre ss closing).listSep ss))
+
+mutual
+def nestOKs (p : P) : Stmt → Bool
+  | .mk _ _ neg _ cmd => nestOKc (p.stmtPre neg) cmd
+def nestOKc (p : P) : Cmd → Bool
+  | .call _ => true
+  | .binary opPos op x y =>
+    nestOKs ((p.advanceLine x.pos.line).spacePad) x &&
+    nestOKs ((((p.advanceLine x.pos.line).spacePad).stmt x).binaryOp opPos op y.pos.line y.isBinaryCmd).1 y
+  | .subshell lp rp ss =>
+    (!ss.headLparen ||
+      ((p.cur != (((((p.advanceLine lp.line).spacePad).subshellOpen lp ss).nestPre ss rp).stmtSep true ss.headLine).cur) ==
+        (lp.line != ss.headLine))) &&
+    nestAgree (((p.advanceLine lp.line).spacePad).subshellOpen lp ss) ss rp ((p.subClose lp rp ss).rparenPre rp.line).cur &&
+    (!ss.singleRparen || ((p.cur == ((p.subClose lp rp ss).rparenPre rp.line).cur) == (lp.line == rp.line))) &&
+    nestOKl ((((p.advanceLine lp.line).spacePad).subshellOpen lp ss).nestPre ss rp) true ss
+  | .block lb rb ss =>
+    nestAgree (p.blkOpen lb) ss rb ((p.blkBody lb rb ss).semiPre rb.line).cur &&
+    !(p.blkBody lb rb ss).firstLine &&
+    nestOKl ((p.blkOpen lb).nestPre ss rb) true ss
+def nestOKl (p : P) (first : Bool) : Stmts → Bool
+  | .nil => true
+  | .cons s rest =>
+    nestOKs (p.stmtSep first s.pos.line) s &&
+    nestOKl { ((p.stmtSep first s.pos.line).stmt s) with wantNewline := true } false rest
+end
+
+/-- the side condition of C02's theorem for programs with subshells and blocks -/
+def nestOKFile (o : Opts) (f : File) : Bool := nestOKl (P.init o) true f.stmts
+
 /-- `f'` carries the lines on which `printFile o f` puts its tokens -/
 def trFileB (o : Opts) (f f' : File) : Bool := trLoopB (P.init o) true f.stmts f'.stmts
 
@@ -111,5 +220,12 @@ def specTranscript (o : Opts) (l : Lang) (src : Bytes) : String :=
       match parse l b with
       | .error _ => "reparse-fail"
       | .ok t' => if trFileB o t t' then "transcript" else "no-transcript"
+
+/-- the side condition of `idempotent_nested_partial` and C02's statement on one input -/
+def specNested (o : Opts) (l : Lang) (src : Bytes) : String :=
+  match parse l src with
+  | .error .outside => "outside"
+  | .error _ => "noparse-src"
+  | .ok t => (if nestOKFile o t then "side-ok " else "side-no ") ++ specIdempotent o l src
 
 end ShVerif.L4
